@@ -77,9 +77,10 @@ func (g *c12Log) take() string {
 type c12Put struct {
 	key     string
 	val     []byte
-	release chan bool
+	release chan int // 0 drop (crash), 1 apply, 2 transient Store error
 	done    chan struct{}
 	ticket  int
+	fail    int // fault plan: 0 none, 1 the next attempt fails, 2 every attempt fails
 }
 
 type c12Fake struct {
@@ -89,6 +90,8 @@ type c12Fake struct {
 	epoch  int
 	opGID  int64
 	log    *c12Log
+	// fault plan for synchronous writes: the next Put on the op goroutine returns a transient error
+	failSync bool
 }
 
 type c12Handle struct {
@@ -97,6 +100,7 @@ type c12Handle struct {
 }
 
 var errC12Dead = errors.New("c12: store handle of a crashed incarnation")
+var errC12Busy = errors.New("c12: database is locked (injected transient error)")
 
 func c12Idx(key string) string {
 	return strings.TrimLeft(strings.TrimPrefix(key, "s"), "0") + c12zero(key)
@@ -119,19 +123,27 @@ func (h *c12Handle) Put(ctx context.Context, ns, key string, value []byte) error
 		return errC12Dead
 	}
 	if c12GID() == f.opGID {
+		if f.failSync {
+			f.failSync = false
+			f.mu.Unlock()
+			f.log.add("spF%s", c12Idx(lkey))
+			return errC12Busy
+		}
 		f.data[key] = v
 		f.mu.Unlock()
 		f.log.add("sp%s", c12Idx(lkey))
 		return nil
 	}
-	p := &c12Put{key: lkey, val: v, release: make(chan bool, 1), done: make(chan struct{}), ticket: -1}
+	p := &c12Put{key: lkey, val: v, release: make(chan int, 1), done: make(chan struct{}), ticket: -1}
 	f.parked = append(f.parked, p)
 	f.mu.Unlock()
-	apply := <-p.release
+	how := <-p.release
 	f.mu.Lock()
 	var err error
-	if apply && h.epoch == f.epoch {
+	if how == 1 && h.epoch == f.epoch {
 		f.data[key] = v
+	} else if how == 2 {
+		err = errC12Busy
 	} else {
 		err = errC12Dead
 	}
@@ -221,9 +233,19 @@ func (f *c12Fake) take(pick func(p *c12Put) bool) *c12Put {
 	return nil
 }
 
-func (f *c12Fake) complete(p *c12Put, apply bool) {
-	p.release <- apply
+// complete lets a parked put finish: dropped (crash), applied, or — when the fault plan says so — failed with a
+// transient Store error.  Returns true when it failed that way.
+func (f *c12Fake) complete(p *c12Put, apply bool) bool {
+	how := 0
+	if apply {
+		how = 1
+		if p.fail > 0 {
+			how = 2
+		}
+	}
+	p.release <- how
 	<-p.done
+	return how == 2
 }
 
 // ---------------------------------------------------------------- fake dataplane (southbound)
@@ -576,22 +598,23 @@ type c12Proto interface {
 }
 
 type c12Env struct {
-	fake      *c12Fake
-	sb        *c12SB
-	bus       *c12Bus
-	log       *c12Log
-	cache     *c12Cache
-	cfgm      *c12Cfg
-	p         c12Proto
-	n4, n6    int
-	kpd       int
-	ns        string
-	tick      int
-	tickets   map[int]*c12Put // assigned parked puts
-	unarrived map[int]c12Want // issued, not yet at the store
-	forced    map[int]bool    // stamps of puts that were let through while an op was blocked
-	used      map[int]bool
-	t0        time.Time
+	fake        *c12Fake
+	sb          *c12SB
+	bus         *c12Bus
+	log         *c12Log
+	cache       *c12Cache
+	cfgm        *c12Cfg
+	p           c12Proto
+	n4, n6      int
+	kpd         int
+	ns          string
+	tick        int
+	tickets     map[int]*c12Put // assigned parked puts
+	unarrived   map[int]c12Want // issued, not yet at the store
+	forced      map[int]bool    // stamps of puts that were let through while an op was blocked
+	poisonLater map[int]int     // fault plan for tickets that have not reached the store yet
+	used        map[int]bool
+	t0          time.Time
 }
 
 // c12Ordering: learned at run time — the implementation serialises the writes of one key (a write waits for the
@@ -639,6 +662,48 @@ func (e *c12Env) sameKeyParked(key string) bool {
 		if p.key == key {
 			return true
 		}
+	}
+	return false
+}
+
+// after a put failed with a transient error: did the implementation repeat the write?  A put of the same key with
+// the same stamp that turns up is that retry; it keeps the ticket (and the fault plan if it fails on every attempt).
+func (e *c12Env) reclaim(p *c12Put) bool {
+	st := c12StampOf(p.val)
+	var got *c12Put
+	c12WaitFor(20*time.Millisecond, func() bool {
+		e.fake.mu.Lock()
+		defer e.fake.mu.Unlock()
+		for _, q := range e.fake.parked {
+			if q.ticket < 0 && q.key == p.key && c12StampOf(q.val) == st && bytes.Equal(q.val, p.val) {
+				got = q
+				return true
+			}
+		}
+		return false
+	})
+	if got == nil {
+		return false
+	}
+	got.ticket = p.ticket
+	if p.fail == 2 {
+		got.fail = 2
+	}
+	if p.ticket >= 0 {
+		e.tickets[p.ticket] = got
+	}
+	return true
+}
+
+// finishPut completes a parked put (applying it unless its fault plan fails it) and reports a retry
+func (e *c12Env) finishPut(p *c12Put) bool {
+	if n := c12StampOf(p.val); n >= 0 && p.fail == 0 && e.poisonLater[n] > 0 {
+		// the fault plan was made for this write before it reached the store
+		p.fail = e.poisonLater[n]
+		delete(e.poisonLater, n)
+	}
+	if e.fake.complete(p, true) {
+		return e.reclaim(p)
 	}
 	return false
 }
@@ -697,8 +762,8 @@ func (e *c12Env) runOp(key string, fn func()) string {
 				if time.Since(waitingSince) >= 10*time.Millisecond {
 					if p := e.fake.take(func(p *c12Put) bool { return p.key == key }); p != nil {
 						c12Ordering = true
-						e.fake.complete(p, true)
 						e.forget(p)
+						e.finishPut(p)
 					}
 					waitingSince = time.Time{}
 				}
@@ -779,19 +844,20 @@ func (e *c12Env) settle(key string) {
 	}
 }
 
-// finish: done:<t>
-func (e *c12Env) finish(t int) {
+// finish: done:<t>; reports whether the write failed (fault plan) and was repeated by the implementation
+func (e *c12Env) finish(t int) bool {
 	if p := e.tickets[t]; p != nil {
 		delete(e.tickets, t)
 		if q := e.fake.take(func(x *c12Put) bool { return x == p }); q != nil {
-			e.fake.complete(q, true)
+			r := e.finishPut(q)
 			e.settle(q.key)
+			return r
 		}
-		return
+		return false
 	}
 	w, ok := e.unarrived[t]
 	if !ok {
-		return
+		return false
 	}
 	delete(e.unarrived, t)
 	// the write is queued behind earlier writes of the same key: let those through, oldest first
@@ -799,23 +865,29 @@ func (e *c12Env) finish(t int) {
 		if e.claim(t, w.key, w.want, 0) {
 			p := e.tickets[t]
 			delete(e.tickets, t)
-			if q := e.fake.take(func(x *c12Put) bool { return x == p }); q != nil {
-				e.fake.complete(q, true)
-				e.settle(q.key)
+			if e.poisonLater[t] > 0 {
+				p.fail = e.poisonLater[t]
+				delete(e.poisonLater, t)
 			}
-			return
+			if q := e.fake.take(func(x *c12Put) bool { return x == p }); q != nil {
+				r := e.finishPut(q)
+				e.settle(q.key)
+				return r
+			}
+			return false
 		}
 		p := e.fake.take(func(x *c12Put) bool { return x.key == w.key })
 		if p == nil {
-			return // nothing of this key is in flight: the implementation dropped the write (superseded)
+			return false // nothing of this key is in flight: the implementation dropped the write (superseded)
 		}
-		e.fake.complete(p, true)
 		e.forget(p)
+		e.finishPut(p)
 		// the next queued write of this key reaches the store; none: dropped
 		if !c12WaitFor(60*time.Millisecond, func() bool { return e.sameKeyParked(w.key) }) {
-			return
+			return false
 		}
 	}
+	return false
 }
 
 func (e *c12Env) crash(preserved bool, fail int) string {
@@ -830,6 +902,7 @@ func (e *c12Env) crash(preserved bool, fail int) string {
 	}
 	e.tickets = map[int]*c12Put{}
 	e.unarrived = map[int]c12Want{}
+	e.poisonLater = map[int]int{}
 	if !preserved {
 		e.sb.wipe()
 	}
@@ -1077,8 +1150,40 @@ func (e *c12Env) runCase(f []string) string {
 			out = append(out, "rel"+r+" "+e.log.take())
 		case "done":
 			t, _ := strconv.Atoi(a[1])
-			e.finish(t)
-			out = append(out, "done")
+			if e.finish(t) {
+				out = append(out, "done retry")
+			} else {
+				out = append(out, "done")
+			}
+		case "poison":
+			t, _ := strconv.Atoi(a[1])
+			k := 1
+			if len(a) > 2 && a[2] == "a" {
+				k = 2
+			}
+			if p := e.tickets[t]; p != nil {
+				p.fail = k
+			} else if _, ok := e.unarrived[t]; ok {
+				e.poisonLater[t] = k
+			}
+			out = append(out, "poison")
+		case "cksf":
+			i, _ := strconv.Atoi(a[1])
+			if !e.p.live(i) {
+				out = append(out, "skip")
+				continue
+			}
+			t := e.tick
+			e.tick++
+			e.p.stamp(i, fmt.Sprintf("t%d", t))
+			e.fake.mu.Lock()
+			e.fake.failSync = true
+			e.fake.mu.Unlock()
+			r := e.runOp(c12SessID(i), func() { e.p.checkpointSync(i) })
+			e.fake.mu.Lock()
+			e.fake.failSync = false
+			e.fake.mu.Unlock()
+			out = append(out, fmt.Sprintf("cks%s %d %s", r, t, e.log.take()))
 		case "crash":
 			fail := -1
 			if len(a) > 2 {
@@ -1123,7 +1228,7 @@ func c12Run(t *testing.T, mk func(e *c12Env) c12Proto, dpPrefix string, ns strin
 			}()
 			lg := &c12Log{}
 			e := &c12Env{log: lg, fake: &c12Fake{data: map[string][]byte{}, log: lg, opGID: -2}, sb: newC12SB(lg, dpPrefix),
-				bus: &c12Bus{log: lg}, cache: newC12Cache(), tickets: map[int]*c12Put{}, unarrived: map[int]c12Want{}, forced: map[int]bool{}, used: map[int]bool{}, t0: time.Now()}
+				bus: &c12Bus{log: lg}, cache: newC12Cache(), tickets: map[int]*c12Put{}, unarrived: map[int]c12Want{}, forced: map[int]bool{}, poisonLater: map[int]int{}, used: map[int]bool{}, t0: time.Now()}
 			e.ns = ns
 			e.n4, _ = strconv.Atoi(f[1])
 			e.n6, _ = strconv.Atoi(f[2])
